@@ -73,7 +73,8 @@ def real_case(draw, max_tasks=7, flags=(), outcomes="some", jobs=(None, 1, 2, 2,
     case["foreign"] = 0
     case["layer"] = "real"
     n = len(case["tasks"])
-    pool = DELAYS + (LONG_DELAYS if signal_mode else [])
+    # signal mode: tasks mostly outlast the signal delay (they die from Conductor's SIGTERM anyway, so cases stay short)
+    pool = (LONG_DELAYS + LONG_DELAYS + ["0.01", "0.05"]) if signal_mode else DELAYS
     case["delays"] = [draw(st.sampled_from(pool)) for _ in range(n)]
     case["trapterm"] = [draw(st.sampled_from([True, True, False])) for _ in range(n)]
     if signal_mode:
